@@ -54,7 +54,7 @@ def build_write_reply(ids, statuses, shape, malformed, dup):
 def case_ip_write(p):
     ids = [tuple(x) for x in p["ids"]]
     out = []
-    rig = IpRig(seed=p.get("seed", 0))
+    rig = IpRig(seed=p.get("seed", 0), env=p.get("env"))
     n = 0
     try:
         reply = {}
@@ -173,7 +173,7 @@ def build_read_reply(ids, statuses, shape, malformed, dup, gstatus):
 def case_ip_read(p):
     ids = [tuple(x) for x in p["ids"]]
     out = []
-    rig = IpRig(seed=p.get("seed", 0))
+    rig = IpRig(seed=p.get("seed", 0), env=p.get("env"))
     n = 0
     try:
         reply = {}
@@ -275,6 +275,8 @@ def plan(tier):
                     work.append(("ip_write", {"ids": ids, "replies": reps[i : i + 120], "pre": pre}))
                 for wire in ("chunked", "lower", "chunked-2") if quick else ("chunked", "lower", "chunked-2", "upper", "mixed", "lws", "extra-headers", "chunked-lower"):
                     work.append(("ip_write", {"ids": ids, "replies": reps[i : i + 120], "wire": wire}))
+                work.append(("ip_write", {"ids": ids, "replies": reps[i : i + 120], "wire": "chunked-lower", "env": dict(delivery="bytes", frames=[7])}))
+                work.append(("ip_write", {"ids": ids, "replies": reps[i : i + 120], "env": dict(delivery="3/4", frames=[48])}))
     for ids in READ_SETS:
         if quick and len(ids) > 3:
             continue
@@ -295,6 +297,8 @@ def plan(tier):
             if i == 0 or not quick:
                 for wire in ("chunked", "lower", "chunked-2") if quick else ("chunked", "lower", "chunked-2", "upper", "mixed", "lws", "extra-headers", "chunked-lower"):
                     work.append(("ip_read", {"ids": ids, "replies": reps[i : i + 150], "wire": wire}))
+                work.append(("ip_read", {"ids": ids, "replies": reps[i : i + 150], "wire": "chunked-lower", "env": dict(delivery="bytes", frames=[7])}))
+                work.append(("ip_read", {"ids": ids, "replies": reps[i : i + 150], "env": dict(delivery="3/4", frames=[48])}))
     for _mod in ("c13_coap", "c13_ble"):
         try:
             _m = __import__(f"vt.props.{_mod}", fromlist=["plan"])
